@@ -26,6 +26,7 @@ func init() {
 			"A7 every constant shortcut (x+0, x*1, x*0, x&-1 ...) is an identity of Go semantics for every operand category that reaches it (table justified by IEEE-754 / two's complement; conjuncts on reflect.Category restrict the categories that reach a shortcut; a compile-time rejection such as 'division by zero' is judged like a rewrite: exact for integers only — found F36; isLiteralNumber(c, -1) on an unsigned operand means all bits set, so x / c is not -x — found F35; the world is closed: an explicit replacement of an operation by an operand, a zero or a negation that is not under a recognised test on the constant operand is reported); A7b && and || with constant operands, enumerated over the sixteen combinations of constancy and value, return what Go's value and evaluation order allow (x || true must still evaluate x); A8 every power-of-two strength reduction matches a proven shape, signed shapes only in signed arms, negation only for negative divisors, shift = integerLen(y)-1 under isPowerOfTwo(y); " +
 			"G1 signed shift counts are converted to uint64 only after the negative-count panic; D1 constants are folded iff both operands are constant. " +
 			"The oracle for each closure is Go's own operator on the labelled type (closure bodies are Go expressions over typed operands). " +
+			"Z1 no && / || in fast, xreflect, base/untyped, base/reflect has two identical operands (found F50: the right operand of == was never tested for comparability). " +
 			"Not decided: typing of mixed operands (toSameFuncType / prepareShift), EvalConst itself, comparisons of non-basic types, values computed by reflect or go/constant.",
 		Assumptions: []string{"Go compiler semantics of operators on basic types", "identity table A7 and rewrite shapes A8 in the checker source (reviewed against IEEE-754 and two's complement)", "go/types, go/packages at x/tools v0.29.0"},
 		Rules: []func(*Ctx){func(c *Ctx) {
@@ -36,6 +37,7 @@ func init() {
 			ext := extendOps(c, "fast", opOf)
 			ruleShortcuts(c, "fast", ext, "A7-shortcut", nil)
 			ruleBoolShortcuts(c, "A7b-bool-shortcuts")
+			ruleNoDuplicateOperands(c, "Z1-no-duplicate-operands", "fast", "xreflect", "base/untyped", "base/reflect")
 			helpers := map[string]string{}
 			for fn, op := range ext {
 				if _, direct := opOf[fn]; !direct {
@@ -53,6 +55,7 @@ func init() {
 			c.Floor("A8-pow2", 40)
 		}, func(c *Ctx) { ruleAccessorFiles(c, "fast", c01Files, "A2-accessor") }},
 		Mutants: []Mutant{
+			{Name: "right-operand-comparability-not-tested", File: "fast/binary_eqlneq.go", Old: "if !xe.Type.Comparable() || !ye.Type.Comparable() {", New: "if !xe.Type.Comparable() || !xe.Type.Comparable() {", Nth: 1},
 			{Name: "or-with-constant-true-skips-left-operand", File: "fast/binary.go", Old: "\t\t\treturn c.exprBool(func(env *Env) bool {\n\t\t\t\treturn xfun(env) || true\n\t\t\t})", New: "\t\t\treturn c.exprValue(nil, true)"},
 			{Name: "and-with-constant-true-on-the-left-returns-left", File: "fast/binary.go", Old: "\tif xfun == nil {\n\t\tif xval {\n\t\t\treturn y\n\t\t}\n\t\treturn c.exprValue(nil, false)", New: "\tif xfun == nil {\n\t\tif xval {\n\t\t\treturn x\n\t\t}\n\t\treturn c.exprValue(nil, false)"},
 			{Name: "shift-by-width-or-more-folded-to-zero", File: "fast/binary_shifts.go", Old: "\t\t} else if y == 0 {\n\t\t\treturn xe\n\t\t}", New: "\t\t} else if y == 0 {\n\t\t\treturn xe\n\t\t} else if y >= 8*uint64(xe.Type.Size()) {\n\t\t\treturn c.exprZero(xe)\n\t\t}", Nth: 2},
@@ -255,10 +258,12 @@ func init() {
 		Title: "REPL command lookup resolves unique prefixes and reports ambiguity",
 		Explanation: "Decided: L1 exact-match consultation: before prefixSearch reports ambiguity an equality between the prefix and a command name (binarySearch's found flag or Name == prefix) has been evaluated and returns the exact command — Cmd.Match returns 0 for exact matches and proper prefixes alike, so without it 'or when the prefix equals a command name' cannot hold; " +
 			"L2 Add appends, sorts with sortCmdList, then stores, and Add/Del/Lookup index the per-letter table by the first byte of the name; L3 every scan loop of prefixSearch is bounded by len(vec); L4 sortCmdList and binarySearch agree on ascending Name order; L5 an unknown ':' input sets CmdOptForceEval (evaluated as code), an ambiguous one evaluates nothing. " +
+			"L5c in Interp.Cmd the command character is dropped from the very string in which it was found (found F49: blanks before the colon). " +
 			"Not decided: the element shifting arithmetic of removeCmd (needs reasoning about slice lengths, not shape), the contents of the ambiguity list.",
 		Assumptions: []string{"sort.Slice, strings.HasPrefix as documented"},
-		Rules:       []func(*Ctx){ruleCmdLookup},
+		Rules:       []func(*Ctx){ruleCmdLookup, func(c *Ctx) { ruleCommandCharRemoval(c, "L5c-command-char-removal") }},
 		Mutants: []Mutant{
+			{Name: "command-char-removed-from-untrimmed-input", File: "fast/cmd.go", Old: "\t\t\ti := strings.IndexByte(src, g.ReplCmdChar)\n\t\t\tsrc = src[:i] + \" \" + src[i+1:]", New: "\t\t\tsrc = \" \" + src[1:]"},
 			{Name: "exact-flag-discarded", File: "fast/cmd.go", Old: "\tlo, found := binarySearch(vec, prefix)\n\tif found {\n\t\t// exact match: never ambiguous, even if other names extend it\n\t\treturn lo, nil\n\t}\n", New: "\tlo, _ := binarySearch(vec, prefix)\n", Canary: true},
 			{Name: "scan-stops-one-short", File: "fast/cmd.go", Old: "for ; hi < n; hi++ {", New: "for ; hi < n-1; hi++ {", Canary: true},
 			{Name: "sort-dropped", File: "fast/cmd.go", Old: "\t\tvec = append(vec, cmd)\n\t\tsortCmdList(vec)\n", New: "\t\tvec = append(vec, cmd)\n"},
@@ -499,6 +504,7 @@ func init() {
 		Rules: []func(*Ctx){func(c *Ctx) {
 			ruleSaveRestore(c, "X6-save-restore")
 			ruleOptionRestore(c, "X8-option-restore")
+			ruleExactOptionRestore(c, "X8b-exact-option-restore")
 			ruleDeferProtocol(c, "X5-defer-protocol")
 			runStateOwnership(c)
 		}},
@@ -804,14 +810,17 @@ func init() {
 		Explanation: "Decided: N1 who-may-read: OptCollectDeclarations / OptCollectStatements / OptTrapPanic / OptPanicStackTrace / OptKeepUntyped are referenced only by the enumerated REPL-driver, collector, command-line and result-returning functions (CompileAst, RunExpr, DebugExpr convert a final untyped result to its default type), never by code that compiles or executes programs; " +
 			"N2 effect confinement: every statement controlled by OptDebugger only records the compiler for the debugger (a *Comp that the function never dereferences, or Env.DebugComp), and Env.DebugComp is read only by the single-step hook and the debugger package; N3 the fields of base.Globals that the declaration collector writes (PackagePath, Imports, Declarations, Statements: derived from CollectNode) are read only by the file writer and the command-line driver (one reviewed exception). " +
 			"E14f the constants of the option types (base.Options, parser.Mode) are pairwise distinct unless declared as explicit aliases (an implicit repetition landing on another option would let one option switch on another); N5 every report of a recovered panic value in afterEval uses the same format verb, with or without the stack-trace option. " +
+			"X8b the options or-ed back after a forced evaluation are the bits that were set before it, not the constant mask (found F48). " +
 			"Not decided: the generics switch (a package-level mode consulted by the parser and type checker).",
 		Assumptions: []string{"option constants are referenced by name (no arithmetic on raw bit values)"},
 		Rules: []func(*Ctx){ruleOptionConfinement, ruleCollectorState, func(c *Ctx) {
 			ruleFlagEnumInjective(c, "E14f-flag-enum", "go/parser", "Mode")
 			ruleFlagEnumInjective(c, "E14f-flag-enum", "base", "Options")
 			ruleSiblingVerbs(c, "N5-sibling-verbs")
+			ruleExactOptionRestore(c, "X8b-exact-option-restore")
 		}},
 		Mutants: []Mutant{
+			{Name: "forced-evaluation-restores-whole-mask", File: "fast/repl.go", Old: "\t\t\tg.Options &^= set\n\t\t\treturn set\n", New: "\t\t\tg.Options &^= set\n\t\t\treturn todisable\n"},
 			{Name: "stack-trace-option-changes-panic-verb", File: "fast/repl.go", Old: "g.Fprintf(g.Stderr, \"%v\\n%s\", rec, debug.Stack())", New: "g.Fprintf(g.Stderr, \"%s\\n%s\", rec, debug.Stack())"},
 			{Name: "field-lookup-uses-collected-package-name", File: "fast/selector.go", Old: "return t.FieldByName(name, c.FileComp().Path)", New: "return t.FieldByName(name, c.Globals.PackagePath)"},
 			{Name: "debugger-option-changes-compilation", File: "fast/func1ret0.go", Old: "\tif c.Globals.Options&base.OptDebugger != 0 {\n\t\tdebugC = c\n\t}", New: "\tif c.Globals.Options&base.OptDebugger != 0 {\n\t\tdebugC = c\n\t\tc.UpCost++\n\t}", Canary: true},
